@@ -80,6 +80,16 @@ def default_cwd():
     return d
 
 
+def _die_with_parent():
+    # the engine must not outlive the driver (a killed check would otherwise leave spinning engines behind)
+    try:
+        import ctypes
+        import signal
+        ctypes.CDLL("libc.so.6").prctl(1, signal.SIGKILL)
+    except Exception:
+        pass
+
+
 class Session:
     def __init__(self, binary, trace_path=None, cwd=None, prefix=None):
         env = dict(os.environ)
@@ -87,7 +97,7 @@ class Session:
             env["WALLEYE_VERIF_TRACE"] = trace_path
         self.t0 = time.monotonic()
         self.p = subprocess.Popen((prefix or []) + [binary], stdin=subprocess.PIPE, stdout=subprocess.PIPE, stderr=subprocess.PIPE, env=env,
-                                  cwd=cwd or default_cwd(), bufsize=0)
+                                  cwd=cwd or default_cwd(), bufsize=0, preexec_fn=_die_with_parent)
         self.q = queue.Queue()
         self.events = [{"ev": "reset"}]
         self.stderr = []
